@@ -65,11 +65,12 @@ QUIET = io.StringIO()
 
 KNOWN = {
     'tq': 'C18-torque-as-point-force',
-    'la': 'C18-LA-term-missing',
     'nh': 'C18-nxxtop-harmonics-dropped-bcn',
-    'kkk': 'C18-kkk-complement-block',
     'nr': 'C18-static-null-rows-loaded',
 }
+
+# repaired defects: their deviation classes are still recognised (for the text of the report) but suppress nothing
+FIXED = {'la': 'C18-LA-term-missing (fixed 7b8ae8e)', 'kkk': 'C18-kkk-complement-block (fixed 0bf93e4)'}
 
 MODELS = ['clpt_donnell_bc1', 'clpt_donnell_bc2', 'clpt_donnell_bc3', 'clpt_donnell_bc4',
           'clpt_sanders_bc1', 'clpt_sanders_bc2', 'clpt_sanders_bc3', 'clpt_sanders_bc4',
@@ -397,7 +398,7 @@ def fext_fields(case, o, inc):
     cc, md = o.cc, o.md
     bc24, clpt, fsdt = flags_of(cc)
     dims = [o.size, md['num0'], md['num1'], md['num2'], cc.m1, cc.m2, cc.n2, md['i0'], md['j0'], md['dofs']]
-    nums = [inc, cc.uTM, cc.thetaTrad, math.pi, cc.r2, cc.cosa, cc.sina, cc.L, cc.P, cc.P_inc, cc.T, cc.T_inc]
+    nums = [inc, cc.uTM, cc.thetaTrad, cc.LA, math.pi, cc.r2, cc.cosa, cc.sina, cc.L, cc.P, cc.P_inc, cc.T, cc.T_inc]
 
     def fl(lst, gs):
         return ' ; '.join(' '.join([q(f[2]), q(f[3]), q(f[4])] + [q(v) for v in g.ravel().tolist()])
@@ -666,7 +667,7 @@ def predicates(case, o):
     kkk = np.array(b['kkk'])
     if kkk.shape != (len(E), len(E)) or not np.array_equal(kkk, K[np.ix_(E, E)]):
         F3 = [i for i in range(3) if i not in E]
-        ident = KNOWN['kkk'] if kkk.shape == (len(F3), len(F3)) and np.array_equal(kkk, K[np.ix_(F3, F3)]) else None
+        ident = KNOWN.get('kkk') if kkk.shape == (len(F3), len(F3)) and np.array_equal(kkk, K[np.ix_(F3, F3)]) else None
         out.append((ident, "exclude_dofs_matrix(return_kkk=True)['kkk'] has shape %r and is not K[prescribed, prescribed] "
                            "(prescribed = %r)" % (kkk.shape, E)))
     # virtual work
@@ -677,8 +678,8 @@ def predicates(case, o):
             out.append((None, 'calc_fext(inc=%r): %s' % (inc, text)))
         else:
             for kk in sorted(keys):
-                out.append((KNOWN[kk], 'calc_fext(inc=%r) equals the virtual work of the loads only after the listed deviation '
-                                       '`%s` is granted (model %s, alphadeg %r)' % (inc, KNOWN[kk], cc.model, case['geom']['alphadeg'])))
+                out.append((KNOWN.get(kk), 'calc_fext(inc=%r) equals the virtual work of the loads only after the listed deviation '
+                                       '`%s` is granted (model %s, alphadeg %r)' % (inc, KNOWN.get(kk, FIXED.get(kk)), cc.model, case['geom']['alphadeg'])))
         # incremental parts scale with the load factor: fext is affine in inc
         with contextlib.redirect_stdout(QUIET):
             f0 = np.array(cc.calc_fext(inc=0., silent=True))
@@ -730,8 +731,8 @@ def predicates(case, o):
                         % (np.abs((lhs - (parts['pt'] + parts['ax'] + parts['tq'] + parts['P'])[free])[kp]).max(), sc)))
         else:
             for kk in ok_keys:
-                out.append((KNOWN[kk], 'static(): the rows of K c = f that belong to the free amplitudes hold only after the '
-                                       'listed deviation `%s` is granted (model %s)' % (KNOWN[kk], cc.model)))
+                out.append((KNOWN.get(kk), 'static(): the rows of K c = f that belong to the free amplitudes hold only after the '
+                                       'listed deviation `%s` is granted (model %s)' % (KNOWN.get(kk, FIXED.get(kk)), cc.model)))
     # de-duplicate by identity/text
     seen, res = set(), []
     for ident, text in out:
@@ -786,7 +787,7 @@ def partition_predicates(pc, blocks, K):
     kkk = np.array(blocks['kkk'])
     if kkk.shape != (len(E), len(E)) or not np.array_equal(kkk, K[np.ix_(E, E)]):
         F3 = [i for i in range(3) if i not in E]
-        ident = KNOWN['kkk'] if kkk.shape == (len(F3), len(F3)) and np.array_equal(kkk, K[np.ix_(F3, F3)]) else None
+        ident = KNOWN.get('kkk') if kkk.shape == (len(F3), len(F3)) and np.array_equal(kkk, K[np.ix_(F3, F3)]) else None
         out.append((ident, "exclude_dofs_matrix(return_kkk=True)['kkk'] has shape %r and is not K[prescribed, prescribed] "
                            "(prescribed = %r)" % (kkk.shape, E)))
     return out
@@ -1147,7 +1148,7 @@ def _w(model, alphadeg, **kw):
 # concrete witnesses of the listed findings (known_findings.json refers to these by index)
 WITNESSES = [
     _w('clpt_donnell_bc3', 0., pdT=False, T=1000.),                       # C18-torque-as-point-force
-    _w('fsdt_donnell_bcn', 10., betadeg=2., thetaTdeg=1.),                # C18-LA-term-missing
+    _w('fsdt_donnell_bcn', 10., betadeg=2., thetaTdeg=1.),                # C18-LA-term-missing (fixed 7b8ae8e): must pass now
     _w('fsdt_donnell_bcn', 0., Nxxtop=[3., 1., 2., -1., .5, .25, .75]),   # C18-nxxtop-harmonics-dropped-bcn
     _w('clpt_donnell_bc2', 20., m1=2, m2=2, n2=1, pdT=False, forces=[[255., 0.5, 0., 10., 0.]]),  # C18-static-null-rows-loaded
 ]
